@@ -28,6 +28,18 @@ CLAIMED = {
    design_ref='DESIGN.md §3 C09',
    note='Mutations never land inside a query; torn pickles are not injected; seeded sampling. The two listed timestamp findings live in parso and importlib and are reported as KNOWN-FINDING only after counterfactual confirmation.',
    technique='deterministic simulation: seeded file-system histories with simulator-assigned timestamps + host restarts on warm cache, pristine-process oracle, counterfactual replay'),
+ 'C12': dict(
+   category='exploration',
+   text='Partial claim: the stateful, two-process content of the statement. Adversarial worlds in which every Python file writes a sentinel when executed (names: conftest, setup, sitecustomize, usercustomize, __main__, gi module/package = settings.auto_import_modules, manage, test_*, _json, math, *.pth, buildout script), project options default / explicit sys_path / added_sys_path / smart_sys_path off / buffer inserting the project into sys.path, subject cwd inside or outside the project. After EVERY op of a seeded session (queries of all kinds, Script.search, Project.search, rename refactorings incl. apply(), helper killed idle or mid-request, helper replies replaced by exceptions at get_module_info/load_module, host restart on the warm pickle cache) the invariants are evaluated: no sentinel; host sys.path/cwd/environ equal baseline and no world module in host sys.modules; helper sys.path/cwd equal their value at helper start (read through the pipe) and no world module in helper sys.modules.',
+   design_ref='DESIGN.md §3 C12',
+   note='Not decided: completeness over all project configurations and all routes to __import__ in code the sessions never drive (Interpreter; django/pytest plug-in paths needing those packages). load_unsafe_extensions stays False. Seeded sampling.',
+   technique='deterministic simulation: adversarial side-effecting worlds, standing sentinel + host/helper state-conservation invariants after every op, with helper crashes / injected helper exceptions / host restarts'),
+ 'C07': dict(
+   category='exploration',
+   text='Partial claim: the disk-effect clauses and diff<->new-code agreement on generated sources. A content model of the project is kept by the simulator; after EVERY op of seeded histories (Script from disk or from an unsaved edited buffer, rename of functions/classes/attributes/modules/packages/submodules, inline, extract_variable, extract_function, repeated inspection, apply(), GC, clock advance, queries, with a new interpreter on the same disk and warm pickle cache between steps) the real disk is digested and compared: I1 nothing changes before apply(); I2 after apply() the disk equals the model updated with exactly get_changed_files()[p].get_new_code() and get_renames(); I3 get_diff() parses as a unified diff whose hunks turn each original into get_new_code() and whose headers/rename lines name exactly the changed and renamed files; repeated inspection returns the same object.',
+   design_ref='DESIGN.md §3 C07',
+   note='Not decided: byte preservation and diff well-formedness over all inputs (CRLF, missing final newline, unicode), and the exception contract - input-universal. No disk faults injected (the statement promises nothing about a failing apply()). One listed finding (hunk ranges count a phantom line at EOF) is tolerated by the diff parser in exactly that form and reported as KNOWN-FINDING.',
+   technique='deterministic simulation: simulated file-system content model vs real disk after every op of seeded refactor/inspect/apply histories'),
 }
 
 NA = {
@@ -47,8 +59,6 @@ NA = {
  'C20': 'pure function of constructor arguments; save/load is two deterministic steps with no crash claim',
 }
 PENDING = {
- 'C12': 'check not built yet (planned: sentinel/host/helper state conservation, see DESIGN.md §3)',
- 'C07': 'check not built yet (planned: disk-effect clauses, see DESIGN.md §3)',
 }
 
 def main():
